@@ -22,7 +22,9 @@ def draw(tier, salt, n_quick=64, n_thorough=1600, n_values=3):
     while len(envs) < n:
         # one schema in four comes from the family aimed at externally sized
         # arrays whose sizer lives in an earlier part
-        defs = gen.gen_env_sizers(rnd) if len(envs) % 4 == 3 else gen.gen_env(rnd)
+        # and one in four from the fixed-roles family (nested dynamic elements, typedefs, odd unions)
+        defs = gen.gen_env_sizers(rnd) if len(envs) % 4 == 3 else gen.gen_env_roles(rnd) if len(envs) % 4 == 1 \
+            else gen.gen_env(rnd)
         env = S.Env(defs)
         if not cppwire.cpp_full_accepts(env):
             continue
